@@ -18,12 +18,13 @@ import (
 // ---- scenarios -----------------------------------------------------------------------------------
 
 type c48Scn struct {
-	Name    string
-	Cmd     string            // fmt | render-svg | render-txt  (first part of every failure class)
-	Files   map[string]string // initial sandbox content
-	Args    []string          // d2 arguments (cwd = sandbox)
-	Targets []string          // files that must hold their complete old or complete new content
-	Thorough bool             // only in the thorough tier
+	Name     string
+	Cmd      string            // fmt | render-svg | render-txt  (first part of every failure class)
+	Files    map[string]string // initial sandbox content
+	Args     []string          // d2 arguments (cwd = sandbox)
+	Targets  []string          // files that must hold their complete old or complete new content
+	Links    map[string]string // symbolic links created after the files: name -> target (relative to the link's directory)
+	Thorough bool              // only in the thorough tier
 }
 
 // unformatted D2 source of exactly n bytes (n == 1 or n >= 7)
@@ -91,6 +92,10 @@ func c48Scenarios() []c48Scn {
 		c48Scn{Name: "svg-default-output-name", Thorough: true, Cmd: "render-svg", Files: map[string]string{"in.d2": c48Diagram(4), "in.svg": c48Old(4096)}, Args: []string{"in.d2"}, Targets: []string{"in.svg"}},
 		c48Scn{Name: "svg-subdir-sketch", Thorough: true, Cmd: "render-svg", Files: map[string]string{"in.d2": c48Diagram(6), "o/out.svg": c48Old(70000)}, Args: []string{"--sketch", "in.d2", "o/out.svg"}, Targets: []string{"o/out.svg"}},
 		c48Scn{Name: "svg-root-board-of-multiboard", Thorough: true, Cmd: "render-svg", Files: map[string]string{"in.d2": "a -> b\nlayers: {l: {c}}\n", "out.svg": c48Old(500)}, Args: []string{"--target", "", "in.d2", "out.svg"}, Targets: []string{"out.svg"}},
+		// the output path exists as a symbolic link to an ordinary file: the link may be replaced or followed, but neither name
+		// may ever show a partial file
+		c48Scn{Name: "svg-output-is-a-symlink", Cmd: "render-svg", Files: map[string]string{"in.d2": "x -> y\n", "real.svg": c48Old(4096)}, Links: map[string]string{"out.svg": "real.svg"}, Args: []string{"in.d2", "out.svg"}, Targets: []string{"out.svg", "real.svg"}},
+		c48Scn{Name: "txt-output-is-a-symlink", Cmd: "render-txt", Files: map[string]string{"in.d2": "x -> y\n", "store/real.txt": c48Old(300)}, Links: map[string]string{"out.txt": "store/real.txt"}, Args: []string{"in.d2", "out.txt"}, Targets: []string{"out.txt", "store/real.txt"}},
 		c48Scn{Name: "txt-2-shapes-old-small", Cmd: "render-txt", Files: map[string]string{"in.d2": "x -> y\n", "out.txt": "old text\n"}, Args: []string{"in.d2", "out.txt"}, Targets: []string{"out.txt"}},
 		c48Scn{Name: "txt-12-shapes-old-64KiB", Thorough: true, Cmd: "render-txt", Files: map[string]string{"in.d2": c48Diagram(12), "out.txt": c48Old(65537)}, Args: []string{"in.d2", "out.txt"}, Targets: []string{"out.txt"}},
 		c48Scn{Name: "txt-ascii-standard", Thorough: true, Cmd: "render-txt", Files: map[string]string{"in.d2": c48Diagram(3), "out.txt": c48Old(4095)}, Args: []string{"--ascii-mode", "standard", "in.d2", "out.txt"}, Targets: []string{"out.txt"}},
@@ -212,6 +217,15 @@ func c48Populate(sb string, sc *c48Scn) error {
 			return err
 		}
 	}
+	for _, name := range sortedKeys(sc.Links) {
+		p := filepath.Join(sb, name)
+		if err := os.MkdirAll(filepath.Dir(p), 0o755); err != nil {
+			return err
+		}
+		if err := os.Symlink(sc.Links[name], p); err != nil {
+			return err
+		}
+	}
 	return nil
 }
 
@@ -264,6 +278,9 @@ func c48GetRef(sc *c48Scn) *c48Ref {
 	}
 	for _, t := range sc.Targets {
 		r.old[t] = sc.Files[t]
+		if l, ok := sc.Links[t]; ok { // read through the link
+			r.old[t] = sc.Files[filepath.Join(filepath.Dir(t), l)]
+		}
 	}
 	var first []ctEntry
 	for pass := 0; pass < 2; pass++ {
@@ -282,7 +299,7 @@ func c48GetRef(sc *c48Scn) *c48Ref {
 					return fail("reference run left no %s", t)
 				}
 				r.new[t] = string(b)
-				if r.new[t] == r.old[t] {
+				if r.new[t] == r.old[t] && t == sc.Targets[0] { // later targets are bystanders: they need not change, only stay whole
 					return fail("reference run did not change %s (vacuous scenario)", t)
 				}
 			}
